@@ -9,3 +9,4 @@ pub mod c07;
 pub mod c08;
 pub mod c10;
 pub mod c17;
+pub mod c18;
